@@ -3,7 +3,7 @@ import Zed.Model.OptRewrites
 /-!
   Driver glue for C07.  Requests:
 
-  * `(C07 optimize <pools> <seq>)`          → `(ok <seq>)` | `error` | `panic-duplicate-op`
+  * `(C07 optimize <pools> <seq>)`          → `(ok <seq>)` | `error`
   * `(C07 parallelize <pools> <n> <seq>)`   → `(ok <seq>)` | `error`   (Optimize, then Parallelize n)
   * `(C07 pass <name> <pools> <seq>)`       → `(ok <seq>)` | `error`   (one rewrite alone)
   * `(C07 sortkeys <pools> <seq>)`          → `(keys …)` | `error`     (Optimizer.SortKeys)
@@ -214,7 +214,6 @@ def handle : List Sexp → String
       match optimize pools seq with
       | .ok r => okSeq r
       | .error => "error"
-      | .panicDuplicateOp => "panic-duplicate-op"
     | _, _ => "bad-op"
   | [.atom "parallelize", p, n, s] =>
     match poolsOf p, natOf n, seqOf s with
@@ -225,7 +224,6 @@ def handle : List Sexp → String
         | some r' => okSeq r'
         | none => "error"
       | .error => "error"
-      | .panicDuplicateOp => "panic-duplicate-op"
     | _, _, _ => "bad-op"
   | [.atom "pass", .atom name, p, s] =>
     match poolsOf p, seqOf s with
